@@ -309,7 +309,9 @@ class Gen:
                 if r.random() < 0.2:
                     v["rename_all"] = r.choice(RULES)
             if r.random() < 0.15:
-                v["rename"] = r.choice(RENAMES[:-1])
+                cand = r.choice(RENAMES[:-1])
+                if cand not in [x["rename"] for x in vs]:    # serde requires distinct variant names
+                    v["rename"] = cand
             if r.random() < 0.07 and nv > 1:
                 v["skip"] = True
             if r.random() < 0.05:
